@@ -10,6 +10,7 @@ HARNESS_PACKAGES = [
     ("router-driver", {}),
     ("macro-driver", {}),
     ("reactive-driver", {}),
+    ("list-driver", {}),
 ]
 
 TB = ("Trusted: Coq 8.16.1 kernel and vm_compute; the hand-written Gallina model is tied to the code only by the "
@@ -67,6 +68,17 @@ for _pid, (_cat, _sec, _what, _extra) in _R.items():
         technique=("Coq proof over hand-written executable Gallina models + differential correspondence against the real runtime + property oracle" if _cat == "proof"
                    else "executable Gallina model of the reactive runtime + differential correspondence against the real runtime + property oracle; theorems in progress"),
         text=RCOMMON + _what + _extra, note=RTB, design=_sec)
+
+CHECKS["C07"] = dict(
+    technique="Coq theorems by computation over a bounded domain (bound in the statement) on a literal Gallina model of the diff + differential correspondence against the real map_keyed/map_indexed + python oracle",
+    text=("ListMap/Keyed.v models the update closures of map_keyed and map_indexed literally (vectors updated by index, HashMap as association list, the new_indices / "
+          "new_indices_next chaining, the three fast paths). BOUNDED theorems, proved by vm_compute with the bound in the statement: for every pair of duplicate-free key lists over "
+          "5 keys (326 x 326) and every chain of three updates over 4 keys (65^3) the keyed step produces exactly the specification's output vector, event list (disposals of leavers, "
+          "then creations in input order) and keeps the state invariant; for every pair of lists of length <= 4 over 3 items the indexed step recomputes exactly the changed or new "
+          "positions and disposes exactly the replaced or truncated ones. The unbounded refinement theorem is not proved. The model is compared with the real functions on ~4000 (quick) / "
+          "~17000 (thorough) chains incl. duplicate-key chains, and a python restatement of the property judges the implementation's output (outputs, map_fn calls, cleanups, live item scopes)."),
+    note=TB + "HashMap/Vec/NodeHandle are modelled; map_fn is abstracted to a fresh call id plus a scope.",
+    design="5.C07")
 
 NOT_YET = {}
 
